@@ -14,7 +14,8 @@
 (***************************************************************************)
 EXTENDS Integers, Sequences, FiniteSets, TLC
 
-CONSTANTS NE, Interval, SyncCons, MaxTime, Retain
+CONSTANTS NE, Interval, SyncCons, MaxTime, Retain,
+          Faults    \* TRUE: the consumer's awaitable may raise
 
 VARIABLES arrived, st, slotAt, arrAt, next, now, delivered, busy, rc, fired, emitDone,
           up     \* the element whose update() call is still running synchronously inside the
@@ -70,6 +71,20 @@ ConsumerDone(e) ==
     /\ e \in busy /\ busy' = busy \ {e} /\ up = 0
     /\ UNCHANGED <<arrived, st, slotAt, arrAt, next, now, delivered, rc, fired, emitDone, up>>
 
+\* the consumer's awaitable raises: the exception comes out of `yield self._emit` inside this element's update(),
+\* whose future carries it to the emitter; the reference is never released (the element is never reported as done);
+\* the other elements' coroutines are not affected
+ConsumerFail(e) ==
+    /\ Faults /\ e \in busy /\ busy' = busy \ {e} /\ up = 0
+    /\ st' = [st EXCEPT ![e] = "failed"]
+    /\ UNCHANGED <<arrived, slotAt, arrAt, next, now, delivered, rc, fired, emitDone, up>>
+
+\* the emitter sees the exception
+EmitRaised(e) ==
+    /\ st[e] = "failed" /\ ~emitDone[e] /\ up = 0
+    /\ emitDone' = [emitDone EXCEPT ![e] = TRUE]
+    /\ UNCHANGED <<arrived, st, slotAt, arrAt, next, now, delivered, busy, rc, fired, up>>
+
 \* downstream finished: release; the future returned by update() resolves
 RlRelease(e) ==
     /\ st[e] = "emitting" /\ e \notin busy /\ Free(e)
@@ -92,12 +107,12 @@ Advance ==
     /\ UNCHANGED <<arrived, st, slotAt, arrAt, next, delivered, busy, rc, fired, emitDone, up>>
 
 Internal == \E e \in Elems : RlEmit(e) \/ RlRelease(e) \/ UpRelease(e)
-Next == (\E e \in Elems : Arrive(e) \/ ConsumerDone(e) \/ EmitDone(e)) \/ Internal \/ Advance
+Next == (\E e \in Elems : Arrive(e) \/ ConsumerDone(e) \/ ConsumerFail(e) \/ EmitDone(e) \/ EmitRaised(e)) \/ Internal \/ Advance
 Spec == Init /\ [][Next]_vars
 
 ----------------------------------------------------------------------------
-TypeOK == \A e \in Elems : st[e] \in {"none", "sleeping", "ready", "emitting", "done"}
-Quiescent == \A e \in 1 .. arrived : st[e] = "done"
+TypeOK == \A e \in Elems : st[e] \in {"none", "sleeping", "ready", "emitting", "done", "failed"}
+Quiescent == \A e \in 1 .. arrived : st[e] \in {"done", "failed"}
 
 \* C13: spacing, order, count, no needless delay
 Spacing == \A i \in 1 .. (Len(delivered) - 1) : delivered[i + 1][2] - delivered[i][2] >= Interval
@@ -112,7 +127,7 @@ NoNeedlessDelay ==
 OnTime == \A i \in 1 .. Len(delivered) : delivered[i][2] = Max(arrAt[delivered[i][1]], slotAt[delivered[i][1]])
 
 \* C04 / C05
-InFlight(e) == st[e] \in {"sleeping", "ready", "emitting"}
+InFlight(e) == st[e] \in {"sleeping", "ready", "emitting", "failed"}      \* ("failed": never reported as done)
 CbSafe == \A i \in 1 .. Len(fired) : ~InFlight(fired[i])
 RcBalance == /\ \A e \in Elems : rc[e] >= 0
              /\ \A e \in Elems : rc[e] = (IF InFlight(e) /\ Retain THEN 1 ELSE 0) + (IF up = e THEN 1 ELSE 0)
